@@ -387,10 +387,73 @@ def _expr_case(k, rng, tier):
     }
 
 
+def _mixed_case(k, rng, tier):
+    """One string-expression function applied to a stream whose records change shape: dict, attribute
+    object, bare value, dicts with more or fewer fields.  Every call is compared with the Python function
+    on the same field values; a record that lacks a field must fail in both forms."""
+    from histogrammar.util import UserFcn
+
+    multi = k % 2 == 1
+    fields = ["x", "y"] if multi else ["x"]
+    sexpr, pexpr = _gen_expr(rng, rng.randint(1, 3), False, fields)
+    if "x" not in sexpr:
+        sexpr, pexpr = "(x + %s)" % sexpr, "(d['x'] + %s)" % pexpr
+    pyf = eval("lambda d: " + pexpr, {})
+    u = UserFcn(sexpr)
+    vals = [0.0, 1.0, -1.0, 2.5, -3.25, 0.5, 100.0, 7.0]
+    failures = []
+    counters = {"mixed_sequences": 1}
+    log = []
+    shapes = ["dict", "attr", "dict+extra", "dict-missing"] + ([] if multi else ["scalar", "scalar"])
+    for j in range(rng.randint(3, 12)):
+        shape = rng.choice(shapes)
+        r = {f: rng.choice(vals) for f in fields}
+        if shape == "dict":
+            arg = dict(r)
+        elif shape == "attr":
+            arg = AttrRecord(r)
+        elif shape == "dict+extra":
+            arg = dict(r, z=rng.choice(vals), other=1.0)
+        elif shape == "dict-missing":
+            arg = {"z": 1.0} if not multi else {"x": r["x"]}
+            r = None
+        else:
+            arg = r["x"]
+        log.append([shape, S.jsonable(r)])
+        try:
+            got = u(arg)
+            gerr = None
+        except Exception as e:  # noqa: BLE001
+            got, gerr = None, e
+        counters["mixed_calls"] = counters.get("mixed_calls", 0) + 1
+        counters["mixed_calls:" + shape] = counters.get("mixed_calls:" + shape, 0) + 1
+        if r is None:
+            r = arg  # the incomplete record itself: the Python function fails on it exactly when the field is read
+        try:
+            want = pyf(r)
+            werr = None
+        except Exception as e:  # noqa: BLE001
+            want, werr = None, e
+        if (werr is None) != (gerr is None):
+            failures.append(C.fail(None, "string expression `%s`, call %d (%s record %r) of a mixed stream: %s, the Python function: %s" % (sexpr, j, shape, r, "raised %s: %s" % (type(gerr).__name__, str(gerr)[:100]) if gerr else "returned %r" % (got,), "raised %s" % type(werr).__name__ if werr else "returned %r" % (want,)), calls=log, expression=sexpr))
+            break
+        if werr is None and not (want == got or (want != want and got != got)):
+            failures.append(C.fail(None, "string expression `%s`, call %d (%s record %r) of a mixed stream returned %r, the Python function returns %r" % (sexpr, j, shape, r, got, want), calls=log, expression=sexpr))
+            break
+    return {
+        "digest": C.digest("mixed", sexpr, log),
+        "nontrivial": counters.get("mixed_calls", 0) > 1,
+        "failures": failures,
+        "counters": counters,
+        "sets": {"expr_reps": {"mixed"}},
+        "sample": {"kind": "string expression on a stream of changing record shapes", "expression": sexpr, "calls": log[:6]},
+    }
+
+
 def run_case(i, rng, tier):
     m = i % 10
     if m == 0:
-        return _orders_case(i // 10, rng)
+        return _orders_case(i // 10, rng) if (i // 10) % 2 == 0 else _mixed_case(i // 20, rng, tier)
     if m in (1, 2, 3, 4, 5):
         return _shadow_case(i // 10 * 5 + (m - 1), rng)
     return _expr_case(i // 10 * 4 + (m - 6), rng, tier)
@@ -398,7 +461,7 @@ def run_case(i, rng, tier):
 
 def conclusive(agg):
     out = []
-    for c in ("orders_built", "second_name_rejected", "shadow_calls:same", "shadow_calls:equal", "shadow_calls:different", "expr_rep:dict", "expr_rep:attr", "expr_rep:scalar", "expr_rep:vector", "twin:row", "twin:vector"):
+    for c in ("orders_built", "second_name_rejected", "shadow_calls:same", "shadow_calls:equal", "shadow_calls:different", "expr_rep:dict", "expr_rep:attr", "expr_rep:scalar", "expr_rep:vector", "twin:row", "twin:vector", "mixed_calls:dict", "mixed_calls:attr", "mixed_calls:scalar", "mixed_calls:dict-missing"):
         if not agg.counters.get(c):
             out.append("never exercised: " + c)
     return out
